@@ -30,6 +30,12 @@ VARIABLES hist, done,
           now,          \* largest exchange time used so far
           uset          \* values pos.unreal may have now (a set because of MarkStale)
 
+\* TLC configuration files cannot write negative numbers: the signed price sets of the C15
+\* generators (`PRICE <- GenPriceSigned`, `MARK <- GenMarkSigned`, `PRICE <- GenPriceNonPos`)
+GenPriceSigned == {-3, 0, 1, 3, 10}
+GenMarkSigned  == {-3, 0, 1, 2, 5, 9}
+GenPriceNonPos == {-2, 0, 1, 3}
+
 gvars == <<pos, exited, net, cash, fees, nfill, fresh, last, hist, done, dl1, dlt, tfill, now, uset>>
 mvars == <<dl1, dlt, tfill, now>>
 
@@ -66,8 +72,24 @@ GInit == /\ Init
 Max(a, b) == IF a > b THEN a ELSE b
 
 \* ------------------------------------------------------------------ fills
-GFillAt(s, p, q, f, t) ==
-    /\ Fill(s, R(p), R(q), R(f), nfill + 1, t)
+\* Fill prices <= 0 (C15's generators only) are used where the lead asked for them and the code
+\* accepts them: on fills that increase or reduce an open position, and never so that the average
+\* entry price becomes exactly 0 (closing a position whose average entry price is 0 makes
+\* TearSheetGenerator::update_from_position divide by zero - the statistics' matter, neither C02's
+\* nor C15's; reported separately).  Any other draw of a non-positive price is replaced by a
+\* positive one.
+ArmOf(s, q) == IF ~IsOpen(pos) THEN "Open" ELSE IF pos.side = s THEN "Increase"
+               ELSE IF Gt(pos.qty, R(q)) THEN "Reduce" ELSE IF pos.qty = R(q) THEN "Close" ELSE "Flip"
+AvgStaysNonZero(s, p, q) ==
+    ArmOf(s, q) = "Increase" => ~IsZero(Add(Mul(pos.avg, pos.qty), Mul(R(p), R(q))))
+SafePrice(s, p, q) ==
+    IF /\ p > 0 \/ ArmOf(s, q) \in {"Increase", "Reduce"}
+       /\ AvgStaysNonZero(s, p, q)
+    THEN p
+    ELSE CHOOSE x \in PRICE : x > 0 /\ AvgStaysNonZero(s, x, q)
+
+GFillAt(s, p0, q, f, t) ==
+    /\ LET p == SafePrice(s, p0, q) IN Fill(s, R(p), R(q), R(f), nfill + 1, t)
     /\ tfill' = t /\ now' = Max(now, t)
     /\ uset' = IF IsOpen(pos') THEN {pos'.unreal} ELSE {}
     /\ UNCHANGED <<dl1, dlt, done>>
